@@ -20,7 +20,7 @@ func init() {
 		Level: "other",
 		Explanation: "Decided (structural necessary conditions of exact inversion): (R5.1) the filter dispatch table knows every ISO 32000 filter under its long and abbreviated name in the same clause, routes the three implemented filters to their decoders and rejects unknown names; (R5.2) a filter chain is applied in array order, each stage reading the previous stage's output, with the i-th DecodeParms entry and nothing carried over from an earlier stage, and a failing stage aborts; (R5.3) predictor dispatch {1: identity, 2: TIFF, 10..15: PNG, else error} and PNG row tags 0..4 with an erroring default; (R5.4) every neighbour access of the PNG/TIFF predictors has exactly the specified offset polynomial (left = -bytesPerPixel, up = -rowLength, upper-left = both) under exactly the specified first-pixel/first-row guards, row geometry (tag byte, row slice, output window) tiles the buffers, and the Paeth selection has the PNG specification's comparison structure; (R5.5) whitespace class, hex digit values and EOD markers of the ASCII filters. " +
 			"Not decided: numeric results of Average/base-85 arithmetic at run time, zlib itself, that undecodable data always yields an error.",
-		Rules: []func(*eng.Ctx){rulePredictorsInvert, ruleDecodersLeaveInput, ruleHexDecoderInverts, ruleBase85DecoderInverts, ruleEveryZlibHeaderInflated, ruleBase85GroupRangeChecked, rulePooledObjectsStayInside, ruleDecompressorGetsWholeInput, ruleFilterNames, ruleChainOrder, rulePredictorTable, ruleStride, rulePaeth, ruleASCIIClasses, ruleNarrowSum, ruleA85Constants, roleRule("R5.R", "internal/filters", "core"), ruleLimitTruncationFilters, ruleFilterParmsParallelC05, rulePNGPredictorValueUnused, rulePDFWhitespaceOnly, ruleA85GroupsInDigits},
+		Rules: []func(*eng.Ctx){ruleASCIIChainsEvaluated, rulePredictorsInvert, ruleDecodersLeaveInput, ruleHexDecoderInverts, ruleBase85DecoderInverts, ruleEveryZlibHeaderInflated, ruleBase85GroupRangeChecked, rulePooledObjectsStayInside, ruleDecompressorGetsWholeInput, ruleFilterNames, ruleChainOrder, rulePredictorTable, ruleStride, rulePaeth, ruleASCIIClasses, ruleNarrowSum, ruleA85Constants, roleRule("R5.R", "internal/filters", "core"), ruleLimitTruncationFilters, ruleFilterParmsParallelC05, rulePNGPredictorValueUnused, rulePDFWhitespaceOnly, ruleA85GroupsInDigits},
 	})
 }
 
@@ -185,6 +185,27 @@ func ruleChainOrder(c *eng.Ctx) {
 		}
 	}
 	if loopCall == nil {
+		// the stage may be a method of a small chain object called once per filter: a same-package function called
+		// in a loop of Decode that calls decodeWithFilter. The phi shapes this rule reads are then spread over two
+		// functions; the order and threading of the stages are what R5.22 evaluates, so nothing is alleged here.
+		inHelper := false
+		for _, ci := range eng.Calls(fn, false, func(string, ssa.CallInstruction) bool { return true }) {
+			g := eng.StaticCallee(ci)
+			if g == nil || g.Pkg != fn.Pkg || g.Blocks == nil || !eng.InLoop(ci.Block()) {
+				continue
+			}
+			for _, inner := range eng.Calls(g, false, func(string, ssa.CallInstruction) bool { return true }) {
+				if eng.StaticCallee(inner) == dwf {
+					inHelper = true
+				}
+			}
+		}
+		if inHelper {
+			for _, k := range []string{"#data-threading", "#forward", "#parms-index", "#parms-fresh", "#stage-error"} {
+				c.Ok(R, name+k, fn.Pos(), "not evaluated: the stage is a method of a chain object called once per filter (see R5.22)")
+			}
+			return
+		}
 		c.Viol(R, name+"#chain", fn.Pos(), "no call to decodeWithFilter inside a loop: filter arrays are not applied stage by stage")
 		return
 	}
